@@ -29,6 +29,13 @@ type world struct {
 	asset map[string]uint64 // denom -> asset id
 	app   map[string]uint64 // app name -> id
 	notes []string
+	hist  []histRec // hooks executed while the history of the state was produced (judged like plain blocks)
+}
+
+type histRec struct {
+	What     string
+	Returned bool
+	PanicS   string
 }
 
 func dec(s string) sdk.Dec { return sdk.MustNewDecFromStr(s) }
@@ -167,6 +174,15 @@ func (w *world) base(uopt2 string) {
 		DebtCeiling: sdk.NewInt(1000000000000), DebtFloor: sdk.NewInt(1000000), MinCr: dec("1.5"), PairName: "CMDX-B",
 		AssetOutOraclePrice: true, AssetOutPrice: 1000000, MinUsdValueLeft: 1000000}), "ext pair")
 
+	// second CDP app (own pair 2: asset 4 -> asset 3, own extended pair 2): hook loops see more than one app with real work
+	w.addApp("osmovlt", "ovt")
+	w.must(w.App.AssetKeeper.AddPairsRecords(w.Ctx, assettypes.Pair{AssetIn: a4, AssetOut: a3}), "pair 2")
+	w.must(w.App.AssetKeeper.WasmAddExtendedPairsVaultRecords(w.Ctx, &bindings.MsgAddExtendedPairsVault{AppID: w.app["osmovlt"], PairID: 2,
+		StabilityFee: dec("0.02"), ClosingFee: dec("0"), LiquidationPenalty: dec("0.1"), DrawDownFee: dec("0.01"), IsVaultActive: true,
+		DebtCeiling: sdk.NewInt(1000000000000), DebtFloor: sdk.NewInt(100000), MinCr: dec("1.4"), PairName: "OSMO-B",
+		AssetOutOraclePrice: false, AssetOutPrice: 1000000, MinUsdValueLeft: 1000000}), "ext pair 2")
+	w.must(w.App.Rewardskeeper.WhitelistAppIDVault(w.Ctx, w.app["osmovlt"]), "vault interest whitelist 2")
+	w.whitelist("osmovlt", true, true)
 	w.must(w.App.Rewardskeeper.WhitelistAppIDVault(w.Ctx, w.app["harbor"]), "vault interest whitelist") // stability fee accrues
 	w.whitelist("harbor", true, true)
 	w.whitelist("commodo", true, false)
@@ -216,6 +232,14 @@ func (w *world) vaults(n int) {
 	}
 }
 
+// vaults2: n users open a osmovlt vault on extended pair 2 (collateral asset 4 at price 2, debt asset 3, MinCr 1.4).
+func (w *world) vaults2(n int) {
+	for i := 0; i < n; i++ {
+		w.deliver(&vaulttypes.MsgCreateRequest{From: w.user(userNames[i]), AppId: w.app["osmovlt"], ExtendedPairVaultId: 2,
+			AmountIn: sdk.NewInt(800000), AmountOut: sdk.NewInt(900000 + int64(i)*50000)}, "vault2 create")
+	}
+}
+
 func (w *world) block(dt time.Duration) sim.BlockResult { return w.NextBlock(dt) }
 
 func (w *world) note(format string, a ...interface{}) { w.notes = append(w.notes, fmt.Sprintf(format, a...)) }
@@ -247,17 +271,30 @@ func (w *world) esmExecute() {
 	w.deliver(&esmtypes.MsgExecuteESM{AppId: w.app["harbor"], Depositor: w.user("u4")}, "esm execute")
 }
 
-// v1: harbor also white-listed in the V1 liquidation module with V1 auction parameters (a chain that still has V1 state).
-func (w *world) v1enable() {
-	w.must(w.App.LiquidationKeeper.WasmWhitelistAppIDLiquidation(w.Ctx, w.app["harbor"]), "v1 whitelist")
-	w.App.AuctionKeeper.SetAuctionParams(w.Ctx, auctiontypes.AuctionParams{AppId: w.app["harbor"], AuctionDurationSeconds: 300,
-		Buffer: dec("1.2"), Cusp: dec("0.6"), Step: sdk.NewInt(1), PriceFunctionType: 1, SurplusId: 1, DebtId: 2, DutchId: 3,
-		BidDurationSeconds: 300})
+// v1: apps white-listed in the V1 liquidation module, with or without V1 auction parameters (a chain that still has V1
+// state; white-listing and auction parameters are separate governance steps).
+func (w *world) v1enable() { w.v1app("harbor", true) }
+
+func (w *world) v1app(app string, withParams bool) {
+	w.must(w.App.LiquidationKeeper.WasmWhitelistAppIDLiquidation(w.Ctx, w.app[app]), "v1 whitelist")
+	if withParams {
+		w.App.AuctionKeeper.SetAuctionParams(w.Ctx, auctiontypes.AuctionParams{AppId: w.app[app], AuctionDurationSeconds: 300,
+			Buffer: dec("1.2"), Cusp: dec("0.6"), Step: sdk.NewInt(1), PriceFunctionType: 1, SurplusId: 1, DebtId: 2, DutchId: 3,
+			BidDurationSeconds: 300})
+	}
+}
+
+// v1lendParams: V1 lend auction parameters of commodo (the V1 borrow sweep needs them to start its auctions).
+func (w *world) v1lendParams() {
+	w.must(w.App.LendKeeper.AddAuctionParamsData(w.Ctx, lendtypes.AuctionParams{AppId: w.app["commodo"], AuctionDurationSeconds: 300,
+		Buffer: dec("1.2"), Cusp: dec("0.6"), Step: sdk.NewInt(1), PriceFunctionType: 1, DutchId: 3, BidDurationSeconds: 300}), "v1 lend auction params")
 }
 
 // liquidity: cswap pair 1 (asset1/asset2) with a basic pool, deposit / withdraw requests and limit orders (real messages).
-func (w *world) liquidity(lifespan time.Duration) {
-	cs := w.app["cswap"]
+func (w *world) liquidity(lifespan time.Duration) { w.liquidityIn("cswap", lifespan) }
+
+func (w *world) liquidityIn(app string, lifespan time.Duration) {
+	cs := w.app[app]
 	w.deliver(liquiditytypes.NewMsgCreatePair(cs, w.Users["u1"], "uasset1", "uasset2"), "create pair")
 	w.deliver(liquiditytypes.NewMsgCreatePool(cs, w.Users["u1"], 1, sdk.NewCoins(coin("uasset1", 1000000000), coin("uasset2", 1000000000))), "create pool")
 	w.deliver(liquiditytypes.NewMsgDeposit(cs, w.Users["u2"], 1, sdk.NewCoins(coin("uasset1", 50000000), coin("uasset2", 50000000))), "deposit req")
